@@ -57,7 +57,8 @@ fn programs() -> Vec<Program> {
         p.setup = Setup { weight: 100, queue, ..Setup::default() };
         p.init = init;
         p.threads = threads;
-        p.post = vec![put(3, 2), del(1), Op::Upsert { k: 1, value: true, w: None, ttl_ms: None, remove_ttl: false }, Op::ReadAll { keys: vec![1, 2] }];
+        // after shutdown: a fresh key, the keys the clients wrote (they may have landed after the store was cleared), a delete, an upsert, reads
+        p.post = vec![put(3, 2), put(2, 2), Op::Put { k: 2, w: None, ttl_ms: Some(1000) }, del(1), del(2), Op::Upsert { k: 1, value: true, w: None, ttl_ms: None, remove_ttl: false }, Op::ReadAll { keys: vec![1, 2] }];
         p.quiesce_sweeps = false;
         p
     };
@@ -68,6 +69,7 @@ fn programs() -> Vec<Program> {
     v.push(mk("shutdown || shutdown || put(b)", 1, vec![put(1, 2)], vec![vec![Op::Shutdown], vec![Op::Shutdown], vec![put(2, 2)]]));
     v.push(mk("shutdown;put(c) || put(b);delete(a) (full queue)", 1, vec![put(1, 2)], vec![vec![Op::Shutdown, put(3, 2)], vec![put(2, 2), del(1)]]));
     v.push(mk("shutdown || put(b) || delete(a)", 1, vec![put(1, 2)], vec![vec![Op::Shutdown], vec![put(2, 2)], vec![del(1)]]));
+    v.push(mk("shutdown;shutdown || put(b);put(c)", 1, vec![put(1, 2)], vec![vec![Op::Shutdown, Op::Shutdown], vec![put(2, 2), put(3, 2)]]));
     v.push(mk("shutdown || multi_get([a,b]);get_ref(a)", 2, vec![put(1, 2), put(2, 2)], vec![vec![Op::Shutdown], vec![Op::MultiRead { keys: vec![1, 2], variant: ReadVariant::MultiGetIterator }, Op::Read { k: 1, variant: ReadVariant::GetRef }]]));
     v
 }
